@@ -56,7 +56,7 @@ def query_points(rng, d, n):
 
 class Check(PropertyCheck):
     id = 'C01'
-    lean_targets = ['RegionsVerif.Props.C01', 'RegionsVerif.Props.C01Poly', 'RegionsVerif.Props.C01Cyclic', 'RegionsVerif.Props.C01Tri', 'RegionsVerif.Props.C01Convex', 'RegionsVerif.Bridge.FormulasC01']
+    lean_targets = ['RegionsVerif.Props.C01', 'RegionsVerif.Props.C01Poly', 'RegionsVerif.Props.C01Cyclic', 'RegionsVerif.Props.C01Tri', 'RegionsVerif.Props.C01Convex', 'RegionsVerif.Props.C01Regular', 'RegionsVerif.Bridge.FormulasC01']
     namespaces = ['RegionsVerif.Props.C01', 'RegionsVerif.Bridge.C01']
     rule = ('every shape class x sizes 1e-3..1e6 x centres to 1e6 x any angle in deg/rad/arcmin/hourangle x include flag in '
             '{absent, True, False, 1, 0} x query coordinates scalar / 0-length / 1-D / N-D (C-, Fortran-ordered, transposed and strided views), int or float; query points on a '
@@ -65,8 +65,9 @@ class Check(PropertyCheck):
     assumptions = ['points whose exact relative distance to the boundary is < 1e-9 are excepted (C01 itself excepts rounding)',
                    'np.cos/np.sin of the angle are correct to a few ulp (the oracle uses an independent 50-digit evaluation)',
                    'numpy element-wise comparison keeps the array shape']
-    validated_only = ['"even-odd = inside" for arbitrary simple polygons (no Jordan curve theorem): decided by the differential '
-                      'run against an independent exact-rational crossing-number oracle; proved: division-free crossing test, '
+    validated_only = ['"even-odd = inside" for NON-convex simple polygons (no Jordan curve theorem): decided by the differential '
+                      'run against an independent exact-rational crossing-number oracle; proved: correctness for every triangle and every strictly convex polygon '
+                      '(C01Tri, C01Convex: open polygon -> true off the fan diagonals of one vertex, off the closed polygon -> false), exact fan decomposition for every polygon, division-free crossing test, '
                       'edge symmetry, translation invariance, independence of the starting vertex and of the direction of traversal, axis rectangles, confinement to the vertex range, parity of straddling edges']
 
     def translate(self):
